@@ -112,7 +112,8 @@ def do_use(est, meta, X):
     if k == 'lf':
         return est.transform(X)
     if k == 'pipe':
-        return est.predict_trajectory(X)
+        # predict_trajectory is documented for ndarrays only (it slices its argument before any conversion)
+        return est.predict_trajectory(X) if isinstance(X, np.ndarray) else est.transform(X)
     if k == 'reg':
         return est.predict(X)
     if hasattr(est, 'transform'):
